@@ -390,7 +390,12 @@ class Engine2:
         else:
             return V(rt.lo, rt.hi, False, inp)
         if lo < rt.lo or hi > rt.hi:
-            lo, hi = rt.lo, rt.hi      # wrap (unsigned) or overflow (signed): anything in the type
+            if t.get('u'):
+                lo, hi = rt.lo, rt.hi                     # unsigned arithmetic wraps: anything in the type
+            else:
+                lo, hi = max(lo, rt.lo), min(hi, rt.hi)   # signed overflow is undefined: results that exist are inside the type
+                if lo > hi:
+                    lo, hi = rt.lo, rt.hi
         return V(lo, hi, False, inp)
 
     MONO = {'log': math.log, 'sqrt': math.sqrt, 'exp': math.exp, 'floor': math.floor, 'ceil': math.ceil, 'round': round, 'log10': math.log10,
